@@ -21,6 +21,7 @@ type vfScenario struct {
 	Dir   bool      `json:"dir"`  // the sources are one directory (else Files top-level files)
 	Pre   string    `json:"pre"`  // "" | "collide" (same names exist, no -y) | "prefix" (-y: a prefix of each file exists)
 	Sess  vfSessOpts `json:"sess"`
+	Kind  int        `json:"kind,omitempty"` // 0: contents rotate noise / text / escape-rich; otherwise every file has this content kind
 }
 
 type vfEvent struct {
@@ -48,7 +49,11 @@ func vfScenSetup(sc vfScenario) (*vfScenEnv, error) {
 	write := func(rel string, i int) {
 		p := filepath.Join(e.src, rel)
 		os.MkdirAll(filepath.Dir(p), 0755)
-		vfWriteFile(p, []int{vfKindNoise, vfKindText, vfKindEscapeRich}[i%3], uint64(100+i), sc.Size+int64(i*37))
+		kind := []int{vfKindNoise, vfKindText, vfKindEscapeRich}[i%3]
+		if sc.Kind != 0 {
+			kind = sc.Kind
+		}
+		vfWriteFile(p, kind, uint64(100+i), sc.Size+int64(i*37))
 		e.fileRel = append(e.fileRel, rel)
 	}
 	if sc.Dir {
